@@ -33,6 +33,8 @@ const (
 	dKeep
 	dCMTail
 	dHookTail
+	dHookEmpty // hook annotation present, value exactly ""
+	dHookNull  // hook annotation present, value null (nothing after the colon)
 	// thorough only
 	dGadget
 	dHookUK
@@ -40,6 +42,8 @@ const (
 	dAnno
 	dCMKeep
 	dIndent
+	dHookTilde // hook annotation present, value ~ (null)
+	dHookWs    // hook annotation present, value "  " (whitespace only)
 	nDocTypes
 )
 
@@ -64,6 +68,11 @@ var docTypes = [nDocTypes]docType{
 	// documents whose last value is a literal block scalar: its final line break belongs to the value
 	dCMTail:   {"cmtail", "apiVersion: v1\nkind: ConfigMap\nmetadata:\n  name: %s\ndata:\n  run.sh: |\n    #!/bin/sh\n    echo hi\n", "manifest"},
 	dHookTail: {"hooktail", hookHead + "    helm.sh/hook: pre-install\ndata:\n  run.sh: |\n    #!/bin/sh\n    echo hi\n", "hook"},
+	// a hook annotation that is present but names nothing: it names no known event, so the document is dropped
+	dHookEmpty: {"hookEmpty", hookHead + "    helm.sh/hook: \"\"\ndata:\n  h: \"1\"\n", "dropped"},
+	dHookNull:  {"hookNull", hookHead + "    helm.sh/hook:\n    example.verif/owner: team\ndata:\n  h: \"1\"\n", "dropped"},
+	dHookTilde: {"hookTilde", hookHead + "    helm.sh/hook: ~\ndata:\n  h: \"1\"\n", "dropped"},
+	dHookWs:    {"hookWs", hookHead + "    helm.sh/hook: \"  \"\ndata:\n  h: \"1\"\n", "dropped"},
 	dGadget:   {"gadget", "apiVersion: example.verif/v1\nkind: Gadget\nmetadata:\n  name: %s\n", "manifest"},
 	dHookUK:   {"hookUK", hookHead + "    helm.sh/hook: pre-frobnicate,post-install\ndata:\n  h: \"1\"\n", "dropped"},
 	dWsBlank:  {"wsblank", "  \n", "nothing"},
@@ -114,8 +123,33 @@ type pcase struct {
 	SubOn    bool       `json:"sub_on,omitempty"`    // subchart present (possibly with NOTES only)
 	SubNotes bool       `json:"sub_notes,omitempty"` // subchart has templates/NOTES.txt
 	SubFlag  bool       `json:"sub_flag,omitempty"`  // action flag SubNotes (--render-subchart-notes)
+	XNotes   []notesSpec `json:"xnotes,omitempty"`  // further NOTES.txt files: any location, any content
 	Real     bool       `json:"real,omitempty"`      // sub-part U: real install + uninstall on the simulated cluster instead of a dry run
 }
+
+// notesSpec is one NOTES.txt file.
+type notesSpec struct {
+	Loc  string `json:"loc"`  // top | nested | sub-top | sub-nested
+	Body string `json:"body"` // prose | steps | resource | hook
+}
+
+// notesLocs: where a NOTES.txt can live (chart-relative path; sub-* are in the subchart).
+var notesLocs = map[string]string{
+	"top": "templates/NOTES.txt", "nested": "templates/sub/NOTES.txt",
+	"sub-top": "templates/NOTES.txt", "sub-nested": "templates/sub/NOTES.txt",
+}
+
+// notesBodies: what a NOTES.txt can say; %s is a unique name. All are valid YAML streams of one document:
+// prose is a plain multi-line scalar, steps is the usual generated text (a mapping that is no resource),
+// resource looks like a resource, hook like a hook.
+var notesBodies = map[string]string{
+	"prose":    "Thank you for installing %s.\nYour release is ready.\n",
+	"steps":    "1. Get the application URL of %s by running these commands:\n  kubectl get svc\n",
+	"resource": notesBody,
+	"hook":     hookHead + "    helm.sh/hook: pre-install\ndata:\n  from: notes\n",
+}
+
+func (n notesSpec) sub() bool { return strings.HasPrefix(n.Loc, "sub-") }
 
 const (
 	chartName = "ch"
@@ -193,6 +227,17 @@ func (p pcase) build() (main map[string]string, sub map[string]string) {
 			sub["templates/NOTES.txt"] = fmt.Sprintf(notesBody, "from-subnotes")
 		}
 	}
+	for _, n := range p.XNotes {
+		text := fmt.Sprintf(notesBodies[n.Body], "notes-"+n.Loc)
+		if n.sub() {
+			if sub == nil {
+				sub = map[string]string{}
+			}
+			sub[notesLocs[n.Loc]] = text
+		} else {
+			main[notesLocs[n.Loc]] = text
+		}
+	}
 	return main, sub
 }
 
@@ -252,6 +297,9 @@ func (p pcase) shape() string {
 		}
 		parts = append(parts, "sub("+strings.Join(sp, ",")+")")
 	}
+	for _, n := range p.XNotes {
+		parts = append(parts, "NOTES@"+n.Loc+"("+n.Body+")")
+	}
 	if p.SubFlag {
 		parts = append(parts, "subnotes-flag")
 	}
@@ -272,6 +320,7 @@ func (p pcase) canon() string {
 	wr(p.Files)
 	fmt.Fprintf(&sb, "|%v%v%v%v%v%v|", p.Notes, p.Helpers, p.SubOn, p.SubNotes, p.SubFlag, p.Real)
 	wr(p.Sub)
+	fmt.Fprintf(&sb, "|%v", p.XNotes)
 	return sb.String()
 }
 
@@ -291,6 +340,7 @@ func (p pcase) clone() pcase {
 	}
 	q.Files = cp(p.Files)
 	q.Sub = cp(p.Sub)
+	q.XNotes = append([]notesSpec(nil), p.XNotes...)
 	return q
 }
 
